@@ -71,7 +71,12 @@ def generate(rng, tier):
                               ["recurrence", "mode:" + md, "max:%d" % mx], fam="R"))
         else:
             good = rand_text(rng, md)
-            bad = mutate(rng, rng.choice([good, "P1D", "R3/2000-01-01T00Z/P1D"]))
+            if rng.random() < 0.4:
+                # shapes on which the parsers raise a *plain* ValueError (tuple unpacking, float()), not their own error class
+                bad = rng.choice(["2020T00T00", "20200101T00+01+02", "2020-01-01T00:00+01:00+02", "PT1.2.3S", "PT1,2,3H", "P1YT1.2M",
+                                  "/2020T00T00/P1D", "3/2020/PT1.2.3S", "/PT1.2.3S/2020", "2020-01-01TT00", "T00T", "2020T0+0+0"])
+            else:
+                bad = mutate(rng, rng.choice([good, "P1D", "R3/2000-01-01T00Z/P1D"]))
             slot = rng.choice(["item", "second", "offset", "rec"])
             argv = {"item": [bad], "second": [good, bad], "offset": [good, "--offset=" + bad], "rec": ["R" + bad]}[slot]
             cases.append(Case(["cli -- " + " ".join(enc(a) for a in argv)], ["malformed", "slot:" + slot], fam="M", argv=argv))
